@@ -463,7 +463,21 @@ def generate(rng, idx, tier, variant):
         elif r < 0.55:
             ops.append({'op': 'eval', 'obj': who, 'expr': rng.choice(['{a} + 1', '{a} * {b}', '{a}[0] + nosuchname', '1 / ({a} - {a})', 'log({a} * 0)', '{a}[', 'lag({a})']), 'a': rng.choice(names), 'b': rng.choice(names), 'warnings_': rng.choice(['ignore', 'always', 'error'])})
     spec.pop('_allow_huge', None)
-    return {'spec': spec, 'ops': ops, 'np_err': np_err}
+    sched = {'spec': spec, 'ops': ops, 'np_err': np_err}
+    if rng.random() < 0.1 and _no_numpy_warning_possible(sched):
+        # the calling program's own warning filter (only where the solver's own step arithmetic cannot warn: with
+        # non-finite or huge values about, a caller who turns warnings into errors gets what they asked for)
+        sched['ambient_warnings'] = rng.choice(['error', 'error', 'always', 'default'])
+    return sched
+
+
+def _no_numpy_warning_possible(sched):
+    import json as _json
+
+    if sched['spec'].get('dtype') or sched.get('np_err') != 'default':
+        return False
+    text = _json.dumps(sched['ops'])
+    return not any(tok in text for tok in ('nan', 'inf', 'npwarn', 'npunder', 'e+308', 'e308', '"eval"'))
 
 
 # ---- parser-built models: contractive / divergent / oscillating systems, natural faults
@@ -637,6 +651,20 @@ def call_is_finite(call):
     return True
 
 
+def _under_ambient_filter(ctx, fn):
+    """Run the call with the calling program's own warning filter in place (the solver installs its own while it runs user
+    code, whatever the caller has)."""
+    amb = getattr(ctx, 'ambient_warnings', None)
+    if not amb:
+        return fn()
+    import warnings as _w
+
+    with _w.catch_warnings():
+        _w.simplefilter(amb)
+        ctx.probe('ambient-warning-filter:' + amb)
+        return fn()
+
+
 def do_solve(m, span, spec, op, endo, check, exo, ctx, step):
     ctl = probes.get_ctl(m)
     n = len(span)
@@ -668,7 +696,7 @@ def do_solve(m, span, spec, op, endo, check, exo, ctx, step):
             # the multi-period entry point with a one-period range: the period's flag is the third list's only element
             v = v[2][0] if (isinstance(v, tuple) and len(v) == 3 and len(v[2]) == 1) else ('malformed-result', repr(v)[:80])
         else:
-            v = m.solve_t(t_arg, **kw)
+            v = _under_ambient_filter(ctx, lambda: m.solve_t(t_arg, **kw))
         out = {'kind': 'return', 'value': v}
     except Exception as e:
         out = {'kind': 'raise', 'exc': e}
@@ -755,6 +783,7 @@ def execute(schedule, ctx):
     fsic = import_fsic()
     spec = schedule['spec']
     ctx.np_err = schedule.get('np_err', 'default')
+    ctx.ambient_warnings = schedule.get('ambient_warnings')
     ctx.probe('ambient-numpy-error-state:' + ctx.np_err)
     try:
         m, span, endo, check, exo = build(fsic, spec, ctx)
